@@ -7,6 +7,7 @@ package main
 import (
 	"fmt"
 	"math"
+	"sort"
 	"strconv"
 	"strings"
 )
@@ -2137,6 +2138,31 @@ func (g *pgProgGen) shadowAfterUse(e *pgGenv) *pgNode {
 	return pgShadowAfterUse(g.pick(5), ns, g.expr(pgTInt, e, 3, false), int64(2+g.pick(5)), int64(1+g.pick(6)))
 }
 
+// pgFieldNamedLikeMethod: a map literal with a closure field named like a built-in map method, called
+// with method syntax; cloArity = number of parameters of the closure (1..3), callArity = number of
+// (constant) arguments (0..3); nonConst: another field of the map is the variable x
+//
+//	{size: x -> x * 2, a: 1}.size()        {get: (p, q) -> p, a: 7}.get("a")
+func pgFieldNamedLikeMethod(name string, cloArity, callArity int, nonConst bool, bindLet bool) *pgNode {
+	ps := []string{"p", "q", "r"}[:cloArity]
+	clo := pgNClo(ps, pgNOp("+", pgNStr("field:"), pgNId(ps[0])))
+	var other *pgNode = pgNInt(7)
+	if nonConst {
+		other = pgNId("x")
+	}
+	m := pgNMap([]string{name, "a"}, []*pgNode{clo, other})
+	var args []*pgNode
+	for i := 0; i < callArity; i++ {
+		args = append(args, pgNStr([]string{"a", "b", "c"}[i]))
+	}
+	if bindLet {
+		return pgNLet("m", m, pgNMethod("mapfield", pgNId("m"), name, args...))
+	}
+	return pgNMethod("mapfield", m, name, args...)
+}
+
+var pgMapMethodNames = []string{"size", "get", "isAvail", "put", "string", "list"}
+
 // pgEraseTicks: the tree with every call tick(k, x) / ptick(k, x) replaced by x (for the specification side)
 func pgEraseTicks(n *pgNode) *pgNode {
 	if n.K == "call" && len(n.Kids) == 3 && n.Kids[0].K == "ident" && (n.Kids[0].Name == "tick" || n.Kids[0].Name == "ptick") {
@@ -2387,9 +2413,85 @@ func pgLazyLetProgram(stage, consumer string, k1, k2 int64, extra bool, tuples [
 }
 
 // the value of the template computed natively (Go int arithmetic wraps like the implementation's)
+// pgIterProgram: a recursion (or a fold) that keeps its state in a map / list value for k steps
+// (k = 11..40 is an argument), call-by-value all the way:
+//
+//	replace  func step(m, k) if k = 0 then m else step(m.replace(x -> {a: x.a + 1}), k - 1); step({a: 0, b: n}, k)
+//	put      func step(m, k) if k = 0 then m else step(m.put("k" + k, k * n), k - 1); step({z: n}, k)
+//	append   func step(l, k) if k = 0 then l else step(l.append(k * n), k - 1); step([n], k)
+//	fold     numbers(k).mapReduce({a: 0, b: n}, (m, i) -> m.replace(x -> {a: x.a + i + 1}))
+func pgIterProgram(mod string, tuples [][]*Tree) *pgProgram {
+	n, k := pgNId("n"), pgNId("k")
+	rec := func(state string, next, init *pgNode) *pgNode {
+		return pgNFunc("step", []string{state, "k"},
+			pgNIf(pgNOp("=", k, pgNInt(0)), pgNId(state), pgNCall("closure", pgNId("step"), next, pgNOp("-", k, pgNInt(1)))),
+			pgNCall("closure", pgNId("step"), init, k))
+	}
+	inc := func(d *pgNode) *pgNode {
+		return pgNClo([]string{"x"}, pgNMap([]string{"a"}, []*pgNode{pgNOp("+", pgNMember(pgNId("x"), "a"), d)}))
+	}
+	var t *pgNode
+	switch mod {
+	case "replace":
+		t = rec("m", pgNMethod("method", pgNId("m"), "replace", inc(pgNInt(1))), pgNMap([]string{"a", "b"}, []*pgNode{pgNInt(0), n}))
+	case "put":
+		t = rec("m", pgNMethod("method", pgNId("m"), "put", pgNOp("+", pgNStr("k"), k), pgNOp("*", k, n)), pgNMap([]string{"z"}, []*pgNode{n}))
+	case "append":
+		t = rec("l", pgNMethod("method", pgNId("l"), "append", pgNOp("*", k, n)), pgNList(n))
+	default:
+		t = pgNMethod("method", pgNCall("static", pgNId("numbers"), k), "mapReduce", pgNMap([]string{"a", "b"}, []*pgNode{pgNInt(0), n}),
+			pgNClo([]string{"m", "i"}, pgNMethod("method", pgNId("m"), "replace", inc(pgNOp("+", pgNId("i"), pgNInt(1))))))
+	}
+	return &pgProgram{T: t, ArgNames: []string{"n", "k"}, Tuples: tuples, Stream: "state-kept-for-many-steps",
+		Oracle: &pgOracle{Kind: "iter", Mod: mod}}
+}
+
+func (o *pgOracle) expectedIter(tuple []*Tree) (string, bool) {
+	if len(tuple) != 2 || tuple[0].Kind != "int" || tuple[1].Kind != "int" || tuple[1].I < 0 || tuple[1].I > 200 {
+		return "", false
+	}
+	n, k := tuple[0].I, tuple[1].I
+	switch o.Mod {
+	case "replace":
+		return fmt.Sprintf("{%q:i%d,%q:i%d}", "a", k, "b", n), true
+	case "put":
+		keys := []string{"z"}
+		vals := map[string]int{"z": n}
+		for i := k; i >= 1; i-- {
+			key := fmt.Sprintf("k%d", i)
+			keys = append(keys, key)
+			vals[key] = i * n
+		}
+		sort.Strings(keys)
+		parts := make([]string, len(keys))
+		for i, key := range keys {
+			parts[i] = fmt.Sprintf("%q:i%d", key, vals[key])
+		}
+		return "{" + strings.Join(parts, ",") + "}", true
+	case "append":
+		parts := []string{fmt.Sprintf("i%d", n)}
+		for i := k; i >= 1; i-- {
+			parts = append(parts, fmt.Sprintf("i%d", i*n))
+		}
+		return "[" + strings.Join(parts, ",") + "]", true
+	}
+	return fmt.Sprintf("{%q:i%d,%q:i%d}", "a", k*(k+1)/2, "b", n), true
+}
+
+func (g *pgProgGen) iterProgram() *pgProgram {
+	var tuples [][]*Tree
+	for v := 0; v < 3; v++ {
+		tuples = append(tuples, []*Tree{{Kind: "int", I: 1 + g.pick(9)}, {Kind: "int", I: 11 + g.pick(30)}})
+	}
+	return pgIterProgram(g.oneOf([]string{"replace", "put", "append", "fold"}), tuples)
+}
+
 func (o *pgOracle) Expected(tuple []*Tree) (string, bool) {
 	if o.Kind == "twice" {
 		return o.expectedTwice(tuple)
+	}
+	if o.Kind == "iter" {
+		return o.expectedIter(tuple)
 	}
 	if len(tuple) != 2 || tuple[0].Kind != "list" || tuple[1].Kind != "int" {
 		return "", false
@@ -2495,6 +2597,9 @@ func pgGenProgramMode(r *Rng, statics map[string]bool, maxNodes int, c02 bool) *
 		}
 		if !c02 && r.Chance(0.03) {
 			return g.twiceProgram()
+		}
+		if !c02 && r.Chance(0.02) {
+			return g.iterProgram()
 		}
 		nargs := 1 + r.Pick(3)
 		var names []string
